@@ -254,7 +254,7 @@ static void conc_body(int tid, void *arg)
         case C_MSG: {
             int k;
             for( k = 0; k < nmsgs; k++ ) if( msgs[k].live && msgs[k].dst == c_me ) break;
-            if( k == nmsgs ) { fprintf(stderr, "ut_replay: no notification in flight for rank %d\n", c_me); exit(3); }
+            if( k == nmsgs ) { r = -1; break; }          /* the parent sent nothing to this rank: it will never be notified */
             vmsg_t m = msgs[k];
             msgs[k].live = 0;
             fprintf(out, "{\"e\":\"deliver\",\"src\":%d,\"dst\":%d}\n", m.src, m.dst);
